@@ -113,3 +113,25 @@ def encode_paths(F, ev, itype, shape):
     ops = ("array", tuple(operand(k, i) for i, k in enumerate(shape)))
     outs = ev.run_fn(enc[0], [ity, T.V("opc", 8), ops])
     return outs, enc[0]
+
+
+def register_vs_mnemonic(F, tab):
+    """(ok, found): an instruction without operands may be followed by a mnemonic that starts like a
+    register; combine commits once input is consumed, so the register parser has to backtrack"""
+    from facts import walk, callee_path
+    conflict = sorted(m for m in tab if m[:1] == "r")
+    noop = sorted(m for m, e in tab.items() if e[0] == "NoOperand")
+
+    def wrapped(fn_path, inner_pred):
+        fn = F.fns.get(fn_path)
+        if not fn or not fn.get("thir"):
+            return False
+        for n in walk(fn["thir"]["body"]):
+            if n.get("k") == "call" and (callee_path(n) or "").endswith("::attempt"):
+                if any(y.get("k") == "call" and inner_pred(callee_path(y) or "") for a in n["args"] for y in walk(a)):
+                    return True
+        return False
+    backtracks = wrapped("asm_parser::operand", lambda c: c.endswith("asm_parser::register")) or \
+        wrapped("asm_parser::register", lambda c: c.endswith("::char"))
+    return (backtracks or not (conflict and noop)), {"mnemonics starting with r": conflict, "operand-less mnemonics": noop,
+                                                     "register alternative backtracks": backtracks}
